@@ -96,6 +96,20 @@ CLAIMED.update({
     },
 })
 
+CLAIMED["C06"] = {
+    "text": "bounded symbolic checking (QF_FP + UF) of the real cprNL over every binary64 latitude in [-90,90]: 59 within "
+            "1e-8 of 0, 2 only within 1e-9 of 87, 1 beyond, evenness, and outside those windows exactly "
+            "floor(2pi/ACOS(1-a/COS(pi/180|lat|)^2)) with no other special case (numpy cos/arccos uninterpreted). "
+            "PARTIAL: that this closed form is the DO-260B staircase is NOT solver-decided; it is extracted by "
+            "evaluating the real function on a 0.0005-degree grid with every change bisected to adjacent doubles and "
+            "compared with the 58 transition latitudes (+-1e-9 deg), under assumption A-NL.",
+    "design_ref": "DESIGN.md section 5 C06", "note": NOTE,
+    "technique": "symbolic execution of the real Python source with z3 Float64 proxies (all feasible paths), SMT verdict "
+                 "(unsat, QF_FP+UF) per path against an independently built closed-form term; counterexamples replayed "
+                 "on unpatched code; the closed-form staircase itself by concrete table extraction (stated, not a "
+                 "solver verdict)",
+}
+
 NOT_APPLICABLE = {
     "C20": "transcendental float numerics (numpy **, exp, sqrt, arccos on doubles): no SMT theory reaches the stated "
            "quantities; z3 nlsat answers unknown on the tas<->cas inverse identity; see DESIGN.md section 5 C20",
@@ -103,4 +117,4 @@ NOT_APPLICABLE = {
 
 # designed (DESIGN.md section 5) but the harness is not finished: not claimed, never checked with a weaker technique
 NOT_BUILT = {pid: "harness not built yet (DESIGN.md section 7.1 order of construction)" for pid in
-             ["C06", "C12", "C14", "C15", "C16", "C17", "C19"]}
+             [ "C12", "C14", "C15", "C16", "C17", "C19"]}
